@@ -25,8 +25,9 @@ Definition sym_partition (s : str) (c : ascii) : Z * str :=
   else (0%Z, s).
 
 (* number denoted by digits ip '.' fp *)
+Definition pow10 (n : nat) : positive := Nat.iter n (fun p => (p * 10)%positive) 1%positive.
 Definition dec_value (ip fp : str) : Q :=
-  (Z.of_N (digits_val ip * 10 ^ N.of_nat (length fp) + digits_val fp) # Pos.of_nat (10 ^ length fp)).
+  (Z.of_N (digits_val ip * Npos (pow10 (length fp)) + digits_val fp) # pow10 (length fp)).
 
 Definition split_sign (s : str) : bool * str :=
   match s with
